@@ -712,3 +712,251 @@ Proof.
 Qed.
 
 End CharLoop.
+
+(* ------------------------------------------------------------------------------------------ *)
+(* 5. R2 — what atomic positions observe; propagation of ≈ₕ along the ending-backtracking walk   *)
+(* ------------------------------------------------------------------------------------------ *)
+
+Section Congr.
+Variable e : env.
+Notation evals := (rw_evals e).
+Notation "t ⊑ t'" := (rw_refines e t t') (at level 70).
+Notation "t ⊑ₕ t'" := (rw_hrefines e t t') (at level 70).
+Notation "t ≈ t'" := (rw_eq e t t') (at level 70).
+Notation "t ≈ₕ t'" := (rw_heq e t t') (at level 70).
+
+Lemma hd_list_nil_inv {A} (l l' : list A) : hd_list l = hd_list l' -> l = [] -> l' = [].
+Proof. intros H ->. destruct l'; [reflexivity | discriminate]. Qed.
+
+Lemma hd_list_app_congr {A} (a a' b b' : list A) :
+  hd_list a = hd_list a' -> hd_list b = hd_list b' -> hd_list (a ++ b) = hd_list (a' ++ b').
+Proof. intros Ha Hb. destruct a, a'; try discriminate; simpl in *; congruence. Qed.
+
+Lemma hd_list_concat_congr {A} (zs zs' : list (list A)) :
+  Forall2 (fun z z' => hd_list z = hd_list z') zs zs' -> hd_list (concat zs) = hd_list (concat zs').
+Proof. induction 1; simpl; [reflexivity|]. apply hd_list_app_congr; assumption. Qed.
+
+Lemma Forall2_exists {A B} (P Q : A -> B -> Prop) (R : B -> B -> Prop) l zs :
+  (forall a z, P a z -> exists z', Q a z' /\ R z z') ->
+  Forall2 P l zs -> exists zs', Forall2 Q l zs' /\ Forall2 R zs zs'.
+Proof.
+  intros H. induction 1 as [|a z l zs Hp _ (zs' & HQ & HR)].
+  - exists []. split; constructor.
+  - destruct (H _ _ Hp) as (z' & Hq & Hr). exists (z' :: zs'). split; constructor; assumption.
+Qed.
+
+(* --- the observers: equal FIRST results are all they see --- *)
+
+Theorem atomic_observes_head t t' : t ⊑ₕ t' -> NAtomic t ⊑ NAtomic t'.
+Proof.
+  intros H s z Hz. apply evals_atomic in Hz as (l & Hl & ->).
+  apply H in Hl as (l' & Hl' & E). apply evals_atomic. exists l'. split; [exact Hl' | congruence].
+Qed.
+
+Theorem poslook_observes_head o t t' : t ⊑ₕ t' -> NPosLook o t ⊑ NPosLook o t'.
+Proof.
+  intros H s z Hz. apply evals_poslook in Hz as (l & Hl & ->).
+  apply H in Hl as (l' & Hl' & E). apply evals_poslook. exists l'. split; [exact Hl' | congruence].
+Qed.
+
+Theorem neglook_observes_head o t t' : t ⊑ₕ t' -> NNegLook o t ⊑ NNegLook o t'.
+Proof.
+  intros H s z Hz. apply evals_neglook in Hz as (l & Hl & ->).
+  apply H in Hl as (l' & Hl' & E). apply evals_neglook. exists l'. split; [exact Hl' | rewrite E; reflexivity].
+Qed.
+
+Theorem exprcond_observes_head o c c' y n : c ⊑ₕ c' -> NExprCond o c y n ⊑ NExprCond o c' y n.
+Proof.
+  intros H s z Hz. apply evals_expr_cond in Hz as (lc & Hc & Hz).
+  apply H in Hc as (lc' & Hc' & E). apply evals_expr_cond. exists lc'. split; [exact Hc'|].
+  destruct lc as [|a lc], lc' as [|a' lc']; try discriminate; [exact Hz|].
+  simpl in E. inversion E; subst. exact Hz.
+Qed.
+
+Lemma attempt_ok f root p r :
+  attempt e f root p = Ok r <->
+  exists l, sem e f root {| pos := p; caps := [] |} = Ok l /\ r = match l with [] => None | s :: _ => Some s end.
+Proof.
+  unfold attempt. split.
+  - intros H. apply rw_bind_ok in H as (l & Hl & H). exists l. split; [exact Hl | congruence].
+  - intros (l & -> & ->). reflexivity.
+Qed.
+
+Theorem attempt_observes_head root root' : root ⊑ₕ root' ->
+  forall f p r, attempt e f root p = Ok r -> exists f', attempt e f' root' p = Ok r.
+Proof.
+  intros H f p r Hr. apply attempt_ok in Hr as (l & Hl & ->).
+  destruct (H _ _ (ex_intro _ f Hl)) as (l' & [f' Hl'] & E). exists f'. apply attempt_ok.
+  exists l'. split; [exact Hl'|]. destruct l, l'; try discriminate; [reflexivity|]. simpl in E. congruence.
+Qed.
+
+Lemma attempt_mono f f' root p r : (f <= f')%nat -> attempt e f root p = Ok r -> attempt e f' root p = Ok r.
+Proof.
+  intros Hle H. apply attempt_ok in H as (l & Hl & ->). apply attempt_ok. exists l.
+  split; [eapply rw_sem_mono; eassumption | reflexivity].
+Qed.
+
+Lemma scan_from_observes_head root root' rtl : root ⊑ₕ root' ->
+  forall n f p r, scan_from e f n root rtl p = Ok r ->
+  exists f', forall f'', (f' <= f'')%nat -> scan_from e f'' n root' rtl p = Ok r.
+Proof.
+  intros H. induction n as [|n IH]; intros f p r Hr.
+  - exists 0%nat. intros; exact Hr.
+  - cbn [scan_from] in Hr. apply rw_bind_ok in Hr as (a & Ha & Hr).
+    destruct (attempt_observes_head _ _ H _ _ _ Ha) as (fa & Ha').
+    destruct a as [s|].
+    + exists fa. intros f'' Hf. cbn [scan_from]. rewrite (attempt_mono _ _ _ _ _ Hf Ha'). exact Hr.
+    + destruct (if rtl then p <=? 0 else tlen e <=? p) eqn:E.
+      * exists fa. intros f'' Hf. cbn [scan_from]. rewrite (attempt_mono _ _ _ _ _ Hf Ha'). cbn [bind]. rewrite E. exact Hr.
+      * apply IH in Hr as (fr & Hr). exists (Nat.max fa fr). intros f'' Hf. cbn [scan_from].
+        rewrite (attempt_mono fa f'' _ _ _ ltac:(lia) Ha'). cbn [bind]. rewrite E. apply Hr. lia.
+Qed.
+
+(* the whole search (Spec.find: the scan over start positions) only observes the first result of the root *)
+Theorem find_observes_head root root' rtl : root ⊑ₕ root' ->
+  forall f start prevlen r, find e f root rtl start prevlen = Ok r ->
+  exists f', find e f' root' rtl start prevlen = Ok r.
+Proof.
+  intros H f start prevlen r Hr. unfold find in *.
+  destruct ((prevlen =? 0) && (start =? (if rtl then 0 else tlen e))); [exists 0%nat; exact Hr|].
+  apply (scan_from_observes_head _ _ _ H) in Hr as (f' & Hr). exists f'. apply Hr. lia.
+Qed.
+
+(* --- propagation of ⊑ₕ through the positions eliminateEndingBacktracking walks --- *)
+
+Lemma atomic_heq t : NAtomic t ≈ₕ t.
+Proof.
+  split; intros s z Hz.
+  - apply evals_atomic in Hz as (l & Hl & ->). exists l. split; [exact Hl | apply hd_list_idem].
+  - exists (hd_list z). split; [apply evals_atomic; eauto | symmetry; apply hd_list_idem].
+Qed.
+
+Lemma atomic_tail t t' : t ⊑ₕ t' -> NAtomic t ⊑ₕ NAtomic t'.
+Proof. intros H. apply rw_refines_hrefines, atomic_observes_head, H. Qed.
+
+Lemma poslook_tail o t t' : t ⊑ₕ t' -> NPosLook o t ⊑ₕ NPosLook o t'.
+Proof. intros H. apply rw_refines_hrefines, poslook_observes_head, H. Qed.
+
+Lemma neglook_tail o t t' : t ⊑ₕ t' -> NNegLook o t ⊑ₕ NNegLook o t'.
+Proof. intros H. apply rw_refines_hrefines, neglook_observes_head, H. Qed.
+
+Lemma group_tail t t' : t ⊑ₕ t' -> NGroup t ⊑ₕ NGroup t'.
+Proof.
+  intros H s z Hz. apply (proj1 (evals_group _ _ _ _)) in Hz. apply H in Hz as (z' & Hz' & E).
+  exists z'. split; [apply (proj2 (evals_group _ _ _ _)); exact Hz' | exact E].
+Qed.
+
+Lemma hd_list_flat_map_single {A B} (k : A -> B) (l : list A) :
+  hd_list (flat_map (fun a => [k a]) l) = map k (hd_list l).
+Proof. destruct l; reflexivity. Qed.
+
+(* a PLAIN capture (u = -1) maps every result of its child to exactly one result *)
+Lemma capture_tail o g t t' : t ⊑ₕ t' -> NCapture o g (-1) t ⊑ₕ NCapture o g (-1) t'.
+Proof.
+  intros H s z Hz. apply evals_capture in Hz as (l & Hl & ->).
+  apply H in Hl as (l' & Hl' & E). eexists. split; [apply evals_capture; exists l'; split; [exact Hl' | reflexivity]|].
+  unfold capture_close. change (-1 =? -1) with true. cbv iota.
+  rewrite !hd_list_flat_map_single. congruence.
+Qed.
+
+Lemma concat_last_tail o pre t t' : t ⊑ₕ t' -> NConcat o (pre ++ [t]) ⊑ₕ NConcat o (pre ++ [t']).
+Proof.
+  intros H. induction pre as [|x pre IH]; intros s z Hz; cbn [app] in *.
+  - apply evals_concat_cons in Hz as (lx & zs & Hx & HF & ->).
+    apply H in Hx as (lx' & Hx' & E).
+    assert (Hnil : forall l zs, Forall2 (fun a za => evals (NConcat o []) a za) l zs -> concat zs = l).
+    { induction 1 as [|a za l0 zs0 Ha _ IH0]; [reflexivity|]. apply evals_concat_nil in Ha. subst. simpl. congruence. }
+    rewrite (Hnil _ _ HF). exists lx'. split; [|exact E].
+    apply evals_concat_cons. exists lx', (map (fun a => [a]) lx'). split; [exact Hx'|]. split.
+    + clear. induction lx'; constructor; [apply evals_concat_nil; reflexivity | assumption].
+    + clear. induction lx'; simpl; congruence.
+  - apply evals_concat_cons in Hz as (lx & zs & Hx & HF & ->).
+    destruct (Forall2_exists _ (fun a za => evals (NConcat o (pre ++ [t'])) a za)
+                (fun z z' => hd_list z = hd_list z') _ _ (fun a z Hz => IH a z Hz) HF) as (zs' & HF' & HR).
+    exists (concat zs'). split; [|apply hd_list_concat_congr, HR].
+    apply evals_concat_cons. exists lx, zs'. auto.
+Qed.
+
+Lemma alt_all_tail o l l' : Forall2 (rw_hrefines e) l l' -> NAlternate o l ⊑ₕ NAlternate o l'.
+Proof.
+  induction 1 as [|x x' l l' Hx _ IH]; intros s z Hz.
+  - exists z. split; [exact Hz | reflexivity].
+  - apply evals_alt_cons in Hz as (lx & ly & Hlx & Hly & ->).
+    apply Hx in Hlx as (lx' & Hlx' & Ex). apply IH in Hly as (ly' & Hly' & Ey).
+    exists (lx' ++ ly'). split; [apply evals_alt_cons; eauto | apply hd_list_app_congr; assumption].
+Qed.
+
+Definition opt_hrefines (n n' : option node) : Prop :=
+  match n, n' with
+  | Some a, Some b => a ⊑ₕ b
+  | None, None => True
+  | _, _ => False
+  end.
+
+Lemma backref_cond_tail o g y y' n n' : y ⊑ₕ y' -> opt_hrefines n n' -> NBackRefCond o g y n ⊑ₕ NBackRefCond o g y' n'.
+Proof.
+  intros Hy Hn s z Hz. apply evals_backref_cond in Hz.
+  destruct (is_matched g (caps s)) eqn:E.
+  - apply Hy in Hz as (z' & Hz' & Eh). exists z'. split; [|exact Eh]. apply evals_backref_cond. rewrite E. exact Hz'.
+  - destruct n as [a|], n' as [b|]; cbn [opt_hrefines] in Hn; try contradiction.
+    + apply Hn in Hz as (z' & Hz' & Eh). exists z'. split; [|exact Eh]. apply evals_backref_cond. rewrite E. exact Hz'.
+    + exists z. split; [|reflexivity]. apply evals_backref_cond. rewrite E. exact Hz.
+Qed.
+
+Lemma expr_cond_tail o c c' y y' n n' : c ⊑ₕ c' -> y ⊑ₕ y' -> opt_hrefines n n' ->
+  NExprCond o c y n ⊑ₕ NExprCond o c' y' n'.
+Proof.
+  intros Hc Hy Hn s z Hz. apply evals_expr_cond in Hz as (lc & Hlc & Hz).
+  apply Hc in Hlc as (lc' & Hlc' & E).
+  destruct lc as [|a lc], lc' as [|a' lc']; try discriminate.
+  - destruct n as [b|], n' as [b'|]; cbn [opt_hrefines] in Hn; try contradiction.
+    + apply Hn in Hz as (z' & Hz' & Eh). exists z'. split; [|exact Eh]. apply evals_expr_cond. exists []. auto.
+    + exists z. split; [|reflexivity]. apply evals_expr_cond. exists []. auto.
+  - simpl in E. inversion E; subst a'. apply Hy in Hz as (z' & Hz' & Eh). exists z'. split; [|exact Eh].
+    apply evals_expr_cond. exists (a :: lc'). auto.
+Qed.
+
+End Congr.
+
+Scheme ends_to_min := Minimality for ends_to Sort Prop
+  with ends_to_list_min := Minimality for ends_to_list Sort Prop
+  with ends_to_opt_min := Minimality for ends_to_opt Sort Prop.
+Combined Scheme ends_to_mutind from ends_to_min, ends_to_list_min, ends_to_opt_min.
+
+Section Ending.
+Variable e : env.
+
+Definition opt_heq (n n' : option node) : Prop := opt_hrefines e n n' /\ opt_hrefines e n' n.
+
+(* R2: every step of the ending-backtracking walk (Model/Rewrite.ends_to) preserves the first result *)
+Theorem eliminate_ending_sound_all :
+  (forall t t', ends_to e t t' -> rw_heq e t t') /\
+  (forall l l', ends_to_list e l l' -> Forall2 (rw_hrefines e) l l' /\ Forall2 (rw_hrefines e) l' l) /\
+  (forall n n', ends_to_opt e n n' -> opt_heq n n').
+Proof.
+  apply (ends_to_mutind e (fun t t' => rw_heq e t t')
+           (fun l l' => Forall2 (rw_hrefines e) l l' /\ Forall2 (rw_hrefines e) l' l)
+           (fun n n' => opt_heq n n')).
+  - intros t. apply rw_heq_refl.
+  - intros k l o c m n H. apply rw_heqs_heq, make_loop_atomic_heqs, H.
+  - intros t t' _ [H1 H2]. split; apply atomic_tail; assumption.
+  - intros t t' _ [H1 H2]. destruct (atomic_heq e t') as [A1 A2].
+    split; eapply rw_hrefines_trans; eassumption.
+  - intros o t t' _ [H1 H2]. split; apply poslook_tail; assumption.
+  - intros o t t' _ [H1 H2]. split; apply neglook_tail; assumption.
+  - intros o g t t' _ [H1 H2]. split; apply capture_tail; assumption.
+  - intros t t' _ [H1 H2]. split; apply group_tail; assumption.
+  - intros o pre t t' _ [H1 H2]. split; apply concat_last_tail; assumption.
+  - intros o l l' _ [H1 H2]. split; apply alt_all_tail; assumption.
+  - intros o g y y' n n' _ [H1 H2] _ [H3 H4]. split; apply backref_cond_tail; assumption.
+  - intros o c c' y y' n n' _ [H1 H2] _ [H3 H4] _ [H5 H6]. split; apply expr_cond_tail; assumption.
+  - split; constructor.
+  - intros t t' l l' _ [H1 H2] _ [H3 H4]. split; constructor; assumption.
+  - split; exact I.
+  - intros t t' _ [H1 H2]. split; assumption.
+Qed.
+
+Theorem eliminate_ending_sound t t' : ends_to e t t' -> rw_heq e t t'.
+Proof. apply eliminate_ending_sound_all. Qed.
+
+End Ending.
